@@ -154,6 +154,8 @@ def gen(rng, tier):
                  update=(rng.random() < .3))
         if d['update']:
             d['sizes'] = [sizes[0] for _ in sizes]
+        if what == 'obj' and rng.random() < .4:
+            d['extras'] = True        # OBJ with parametric vertices (vp) and vertex normals (vn)
         base = 1 if what == 'obj' else 0
         line = "mesh exp %d %d %s" % (base, s, ";".join("%d,%d" % tuple(x) for x in d['sizes']))
         if what == 'cont' and d['update']:
@@ -291,8 +293,10 @@ def _export(d):
             export_stl_str = staticmethod(lambda o, binary=False, **k: _file_export('export_stl', o, binary=binary, **k))
         exchange = _Shim
     if what == 'obj':
+        if d.get('extras'):
+            kw.update(vertex_normals=True, parametric_vertices=True)
         txt = exchange.export_obj_str(obj, **kw)
-        V = []; Fs = []
+        V = []; Fs = []; VP = []; VN = []
         for l in txt.splitlines():
             t = l.split()
             if not t or t[0] == '#':
@@ -301,9 +305,13 @@ def _export(d):
                 V.append([_parse_num(x) for x in t[1:]])
             elif t[0] == 'f':
                 Fs.append([int(x) for x in t[1:]])
+            elif t[0] == 'vp' and d.get('extras'):
+                VP.append([_parse_num(x) for x in t[1:]])
+            elif t[0] == 'vn' and d.get('extras'):
+                VN.append([_parse_num(x) for x in t[1:]])
             else:
                 raise ValueError("unexpected OBJ record " + l)
-        return V, Fs, dict(obj=obj, surfs=surfs)
+        return V, Fs, dict(obj=obj, surfs=surfs, vp=VP, vn=VN)
     if what == 'off':
         txt = exchange.export_off_str(obj, **kw)
         ls = txt.splitlines()
@@ -663,6 +671,16 @@ def oracle(c):
                 pos += nf
             if [[i - base for i in f] for f in Fs] != rF:
                 return "%s: faces differ from the surface faces shifted by the vertex offsets" % what
+            if what == 'obj' and d.get('extras'):
+                uvs = [[_f(x) for x in v.uv] for s_ in ex['surfs'] for v in s_.tessellator.vertices]
+                if [[_f(x) for x in r] for r in ex['vp']] != uvs:
+                    return "obj: the vp records are not the parameters of the vertices, one per vertex, in vertex order"
+                if len(ex['vn']) != len(V) or any(len(r) != 3 for r in ex['vn']):
+                    return "obj: %d vn records for %d vertices" % (len(ex['vn']), len(V))
+                for r in ex['vn']:
+                    ln = sum(float(x) ** 2 for x in r)
+                    if abs(ln - 1.0) > 1e-9:
+                        return "obj: a vertex normal has squared length %r" % ln
             return None
         if what == 'stl':
             facets = ex['facets']
